@@ -71,7 +71,7 @@ PRECISIONS = (1, 0.1, 0.01, 0.001)  # documented rounding grid: 0, 1, 2, 3 decim
 
 def shards(tier, seed):
     if tier == "quick":
-        return [{"name": f"mix-{k}", "n": 400, "budget_s": 60, "max_rows": 500, "timeout": 600} for k in range(16)]
+        return [{"name": f"mix-{k}", "n": 400, "budget_s": 150, "max_rows": 500, "timeout": 900} for k in range(16)]
     return [{"name": f"mix-{k}", "n": 6000, "budget_s": 780, "max_rows": 4000, "timeout": 3000} for k in range(16)]
 
 
